@@ -289,5 +289,54 @@ Definition case_code (c : case) : N := code_of (model_ok c) (prop_ok c).
     the harness reader from the original and from the subset); Coq compares them. *)
 Definition cff_char_ok (x : N * bytes * bytes * N * N) : bool :=
   let '(_, cs_orig, cs_sub, adv_orig, adv_sub) := x in bytes_eqb cs_orig cs_sub && (adv_orig =? adv_sub).
-Definition cff_code (c : bool * list (N * bytes * bytes * N * N)) : N :=
-  code_of true (fst c && forallb cff_char_ok (snd c)).
+
+(** CFF INDEX structure (Adobe TN 5176, section 5), executable specification: a 2-byte count; for a
+    non-empty INDEX an offSize in 1..4 and count+1 big-endian offsets of offSize bytes; offsets are
+    relative to the byte before the object data, so the first is 1, they never decrease, and the last is
+    (size of the object data) + 1.  [hdr] is the INDEX from its first byte through its offset array,
+    [region] the number of bytes from the start of the INDEX to the start of the next structure of the
+    font (the INDEX must fill it exactly). *)
+Definition be_val (b : bytes) : N := fold_left (fun a x => a * 256 + x) b 0.
+
+Fixpoint chunks (fuel k : nat) (l : bytes) : list bytes :=
+  match fuel with
+  | O => []
+  | S f => match l with [] => [] | _ => firstn k l :: chunks f k (skipn k l) end
+  end.
+
+Fixpoint nondecreasing (l : list N) : bool :=
+  match l with
+  | a :: ((b :: _) as r) => (a <=? b) && nondecreasing r
+  | _ => true
+  end.
+
+Definition cff_index_ok (x : bytes * N) : bool :=
+  let '(hdr, region) := x in
+  match hdr with
+  | c1 :: c0 :: rest =>
+      let count := c1 * 256 + c0 in
+      if count =? 0 then match rest with [] => region =? 2 | _ => false end
+      else match rest with
+           | [] => false
+           | osz :: offs =>
+               let k := N.to_nat osz in
+               let os := List.map be_val (chunks (length offs) k offs) in
+               (1 <=? osz) && (osz <=? 4)
+               && (N.of_nat (length offs) =? (count + 1) * osz)
+               && forallb (fun b => b <? 256) offs
+               && (hd 0 os =? 1) && nondecreasing os
+               && (3 + (count + 1) * osz + (last os 1 - 1) =? region)
+           end
+  | _ => false
+  end.
+
+Definition cff_code (c : bool * list (bytes * N) * list (N * bytes * bytes * N * N)) : N :=
+  let '(ok, idx, rows) := c in
+  code_of true (ok && forallb cff_index_ok idx && forallb cff_char_ok rows).
+
+Example cff_index_ok_ex :
+  cff_index_ok ([0; 2; 1; 1; 193; 255], 260) = true          (* two items, 192 + 62 = 254 bytes of data *)
+  /\ cff_index_ok ([0; 2; 1; 1; 193; 0], 261) = false         (* 255 bytes of data need offSize 2: offset 256 written as 0 *)
+  /\ cff_index_ok ([0; 2; 2; 0; 1; 0; 193; 1; 0], 264) = true
+  /\ cff_index_ok ([0; 0], 2) = true.
+Proof. vm_compute. repeat split. Qed.
